@@ -18,6 +18,7 @@ import XotModel.Lemmas.AcceptedLexTop
 import XotModel.Lemmas.RoundTripItems
 import XotModel.Lemmas.ParseNsEnv
 import XotModel.Model.SerTokens
+import XotModel.Model.AcceptedGuard
 import XotModel.Model.Parse
 
 namespace XotModel
@@ -34,37 +35,6 @@ theorem forallList_imp {p q : Value → List Tree → Prop} (h : ∀ v ks, p v k
   | [], _ => trivial
   | k :: ks, hk => ⟨forall_imp h k hk.1, forallList_imp h ks hk.2⟩
 end
-
-/-! ### The guards -/
-
-/-- `http://www.w3.org/2000/xmlns/` -/
-def xmlnsNamespaceUri : Str :=
-  ['h', 't', 't', 'p', ':', '/', '/', 'w', 'w', 'w', '.', 'w', '3', '.', 'o', 'r', 'g', '/', '2', '0', '0', '0', '/',
-   'x', 'm', 'l', 'n', 's', '/']
-
-/-- A namespace declaration that Namespaces in XML 1.0 allows as far as reserved names and
-    undeclaring go. -/
-def declAllowed (env : Env) (p ns : Nat) : Bool :=
-  p != Env.xmlPrefix && env.prefixStr p != xmlnsName &&
-  ns != Env.xmlNamespace && env.namespaceStr ns != xmlnsNamespaceUri &&
-  (p == Env.emptyPrefix || ns != Env.noNamespace)
-
-def noReservedDecl (env : Env) (v : Value) (_ : List Tree) : Bool :=
-  match v with
-  | .namespace p ns => declAllowed env p ns
-  | _ => true
-
-/-- No namespace node of the tree is a reserved (re)binding or a prefixed undeclaration. -/
-def NoReservedDecls (env : Env) (t : Tree) : Bool := t.allNodes (noReservedDecl env)
-
-def plainPiTarget (env : Env) (v : Value) (_ : List Tree) : Bool :=
-  match v with
-  | .pi target _ =>
-    ncNameNE (env.localName target) && (env.localName target).map asciiLowerChar != ['x', 'm', 'l']
-  | _ => true
-
-/-- Every PI target is an NCName other than `xml` (any letter case). -/
-def PlainPiTargets (env : Env) (t : Tree) : Bool := t.allNodes (plainPiTarget env)
 
 namespace Accepted
 
